@@ -71,7 +71,7 @@ func TestC08Quarantine(t *testing.T) {
 		w := lstore.NewWorld(t, cfg, nil, rapid.Uint64().Draw(t, "hashInit"))
 		defer w.Close()
 		h := lstore.NewHist(t, w, c, lstore.HistOpts{Holds: false, Syncers: persistent})
-		detections, midBlock, inflightIntoQuarantined, newerChecked, olderChecked, overlapChecked := 0, 0, 0, 0, 0, 0
+		detections, midBlock, inflightIntoQuarantined, newerChecked, olderChecked, overlapChecked, duringRotation := 0, 0, 0, 0, 0, 0, 0
 
 		corruptAndDetect := func(t *rapid.T) {
 			// No existence check may be parked in a refresh copy across the
@@ -239,6 +239,69 @@ func TestC08Quarantine(t *testing.T) {
 					}
 				} else {
 					r = w.Get(victim.o, victim.inst)
+				}
+			} else if nr := func() bool {
+				// Does the victim need a refresh now (fresh location: block
+				// indices are relative to the head of the list)?
+				lNow, ok := locate(w, victim.o, victim.inst)
+				if !ok {
+					return true
+				}
+				w.St.Lock.RLock()
+				defer w.St.Lock.RUnlock()
+				_, needsRefresh := w.St.LBM.Get(lNow)
+				return needsRefresh
+			}(); !cfg.Mutable && !nr && rapid.IntRange(0, 2).Draw(t, "detectDuringRotation") == 0 {
+				// The read is opened now and consumed in the middle of a
+				// rotation caused by another client's upload (after the new
+				// block was appended, before the oldest one is dropped): the
+				// lock-free integrity callback races with the rotation. Only
+				// for victims that need no refresh (a refreshing read's copy
+				// task needs the lock the rotating upload holds).
+				hd := w.OpenHold(victim.o, victim.inst, false, 1<<20)
+				var raw []byte
+				var rawErr error
+				fired := false
+				w.St.BL.OnPushBack = func() {
+					if !fired {
+						fired = true
+						raw, rawErr = w.HoldDrainRaw(hd)
+						if status.Code(rawErr) == codes.Internal {
+							// Detected: the same and all older blocks are
+							// quarantined from this moment (the upload whose
+							// rotation is in progress may itself be allocated
+							// in one of them and must then fail).
+							for _, lb := range w.AllLive {
+								if lb.Abs <= victim.abs && !lb.Popped {
+									lb.Quarantined = true
+								}
+							}
+						}
+					}
+				}
+				for i := 0; i < 12 && !fired && !w.Closed; i++ {
+					w.FinishPut(h.NewUpload())
+				}
+				w.St.BL.OnPushBack = nil
+				if !fired {
+					raw, rawErr = w.HoldDrainRaw(hd)
+				} else {
+					duringRotation++
+				}
+				c.Add("detectDuringRotation", fired)
+				if rawErr == nil && string(w.St.Media.Data.Peek(off, len(pattern))) != string(pattern) {
+					// One of the uploads rewrote the shared sector from its
+					// in-memory image before the held read was consumed.
+					undo()
+					w.Corrupt = false
+					w.History = append(w.History, "  (corrupted sector was rewritten by a neighbouring upload: medium healed)")
+					return
+				}
+				if rawErr == nil {
+					r = lstore.ReadResult{Found: true, Data: raw}
+				} else {
+					w.History = append(w.History, fmt.Sprintf("  held read of object %d consumed (during rotation=%v) -> %v", victim.o.ID, fired, rawErr))
+					r = lstore.ReadResult{Err: rawErr, NotFound: status.Code(rawErr) == codes.NotFound}
 				}
 			} else {
 				r = w.Get(victim.o, victim.inst)
@@ -419,6 +482,7 @@ func TestC08Quarantine(t *testing.T) {
 		c.ClassIf(newerChecked > 0, "newer_objects_checked")
 		c.ClassIf(olderChecked > 0, "older_objects_checked")
 		c.ClassIf(overlapChecked > 0, "findmissing_overlapping_detection_checked")
+		c.ClassIf(duringRotation > 0, "corruption_detected_in_the_middle_of_a_rotation")
 		c.ClassIf(cfg.Mutable, "ac_policy")
 		c.ClassIf(cfg.Hierarchical, "hierarchical")
 		if midBlock > 0 && (inflightIntoQuarantined > 0 || (newerChecked > 0 && olderChecked > 0)) {
